@@ -12,8 +12,8 @@ import (
 	"flag"
 	"fmt"
 	"go/ast"
-	"go/parser"
 	"go/format"
+	"go/parser"
 	"go/token"
 	"os"
 	"path/filepath"
@@ -30,7 +30,7 @@ var seqImports = map[string][2]string{
 }
 
 // packages whose concurrency is put under the controlled scheduler in sched mode
-var schedPkgs = map[string]bool{".": true, "ansi": true, "widgets/spinner": true}
+var schedPkgs = map[string]bool{".": true, "ansi": true, "widgets/spinner": true, "widgets/term": true}
 
 var curFields map[string]map[string]bool
 
